@@ -178,19 +178,25 @@ def run_view(emitted, ka, kb, descs_before):
 
 
 def stop_clause(stops, emitted_after, want):
-    """exactly one RunStop, last, with num_events == want (streams without events do not appear)"""
+    """exactly one RunStop, last, with num_events[s] == want[s] for every stream name s (a stream that is not listed
+    on either side has 0 events, as in the RunEngine's own RunStop)"""
     if len(stops) != 1 or emitted_after != 0:
         return False
-    ne = stops[0].get("num_events")
+    return And(num_events_clause(stops[0].get("num_events"), want), Eq(stops[0].get("run_start"), "start-uid"))
+
+
+def num_events_clause(ne, want):
     if not isinstance(ne, dict):
         return False
-    return And(set(ne.keys()) == set(want.keys()), *[Eq(ne[s], want[s]) for s in want if s in ne],
-               Eq(stops[0].get("run_start"), "start-uid"))
+    names = sorted(set(ne.keys()) | set(want.keys()), key=str)
+    return And(*[Eq(ne.get(s, 0), want.get(s, 0)) for s in names])
 
 
 def raw_stop(w, tag=""):
-    """the raw run's RunStop: its num_events are those of the RAW run (arbitrary, any stream names)"""
-    return {"uid": "stop1" + tag, "run_start": "raw-start", "exit_status": "success", "reason": "", "time": w.real("t_stop" + tag),
+    """the raw run's RunStop: any exit status; its num_events are those of the RAW run (arbitrary, any stream names)"""
+    es = w.str("exit_status" + tag)
+    w.add(Or(Eq(es, "success"), Eq(es, "abort"), Eq(es, "fail")))
+    return {"uid": "stop1" + tag, "run_start": "raw-start", "exit_status": es, "reason": "", "time": w.real("t_stop" + tag),
             "num_events": {"a": w.int("raw_na" + tag), "b": w.int("raw_nb" + tag), "primary": w.int("raw_np" + tag)}}
 
 
@@ -303,7 +309,7 @@ OB_STOP = f"{Q}.stop#ensures[num_events[s] == count(s) for every stream]"
 OB_RESET = f"{Q}.stop#ensures[state reset for the next run]"
 
 
-@task("stop", PROP, functions=[f"{Q}.stop", f"{Q}.emit"], expect=[OB_STOP, OB_RESET],
+@task("stop", PROP, functions=[f"{Q}.stop", f"{Q}.emit", f"{Q}.start", f"{Q}.descriptor", f"{Q}.process_event"], expect=[OB_STOP, OB_RESET],
       covers=["no event was re-emitted in this run", "two descriptors in one stream"])
 def stop(I):
     w = I.w
@@ -329,15 +335,22 @@ def stop(I):
     if has_b:
         want["b"] = kb
     w.check(OB_STOP, stop_clause(stops, len(emitted) - 1, want), rp)
-    # after stop the view is zero again: a fresh run's first event is numbered 1
+    # the next run through the same dispatcher starts from zero: its first event is numbered 1 under a descriptor of its own,
+    # and (when nothing more is emitted) its RunStop reports exactly that one event
     emitted.clear()
-    o.attrs["_stream_start_uid"] = "start2"
-    o.attrs["raw_descriptors"] = {"raw1": {"uid": "raw1", "data_keys": {"x": {}}}}
+    call_method(I, o, "start", {"uid": "raw-start-2", "time": w.real("t_start2"), "scan_id": 2})
+    call_method(I, o, "descriptor", {"uid": "raw1", "data_keys": {"x": {}}, "name": "primary"})
     doc = {"uid": "ev1", "descriptor": "raw1", "data": {"x": w.real("x")}, "timestamps": {"x": 0}, "seq_num": 7, "time": 0}
     call_method(I, o, "process_event", doc, stream_name="a")
-    evs = [d for n, d in emitted if docname(n) == "event"]
-    w.check(OB_RESET, And(len(evs) == 1, Eq(evs[0].get("seq_num"), 1) if evs else False,
-                          [docname(n) for n, d in emitted] == ["descriptor", "event"]), rp)
+    call_method(I, o, "stop", raw_stop(w, "_2"))
+    names = [docname(n) for n, d in emitted]
+    ok = names == ["start", "descriptor", "event", "stop"]
+    if ok:
+        st, de, ev, sp = [d for n, d in emitted]
+        ne = sp.get("num_events")
+        ok = And(Eq(ev.get("seq_num"), 1), Eq(ev.get("descriptor"), de.get("uid")), Eq(de.get("run_start"), st.get("uid")),
+                 Eq(sp.get("run_start"), st.get("uid")), num_events_clause(ne, {"a": 1}))
+    w.check(OB_RESET, ok, rp)
 
 
 OB_START = f"{Q}.start#ensures[re-emits one RunStart with a fresh uid; first event numbered 1]"
@@ -376,7 +389,7 @@ def start(I):
         ne = st.get("num_events")
         ok = And(Eq(evs[0].get("seq_num"), 1), Eq(evs[1].get("seq_num"), 2), Eq(evs[0].get("descriptor"), emitted[0][1].get("uid")),
                  Eq(evs[1].get("descriptor"), emitted[0][1].get("uid")), Eq(emitted[0][1].get("run_start"), suid),
-                 isinstance(ne, dict) and set(ne.keys()) == {"primary"} and Eq(ne["primary"], 2), Eq(st.get("run_start"), suid))
+                 num_events_clause(ne, {"primary": 2}), Eq(st.get("run_start"), suid))
     w.check(OB_PASS, ok, rp)
 
 
